@@ -17,6 +17,14 @@ round, …), cleared by a rollback. After a conflict round the next round first 
 (`refetchAndMergeModifications`); a store the transaction created is gone by then, so that round fails with "store …
 not found" before anything is logged again, and the final rollback (with `logged = false`) has nothing left to do.
 
+`NewBtree` of an absent name is itself two backend calls, in this order: the `createStore` record is written to the
+transaction log (`logger.log` sets `committedState` first, then writes), then `StoreRepository.Add`; only then is the
+B-tree registered in `btreesBackend` with `created = true`. Either call can fail without effect (`before`) or
+after it was performed (`after`), and the process can die between any two calls (`crash`): what survives a crash is
+the disk and the transaction log; a later process's expired-log recovery (`transactionLog.rollback`) removes, by
+name, the store of every `createStore` record and then the records. `addFirst = true` is the variant with the two
+calls of `NewBtree` swapped (Add, then the record), used only to show what the order is for.
+
 This module is that state machine over the catalogue of `Sop.StoreRepo` (same `Store`, `erase`, `applyItems`, …),
 for ONE transaction `T` and an environment of other committers (`other*` ops: whole transactions of others, which
 commit between any two steps of `T`). `forget = true` is the variant in which the partial rollback skips the removal
@@ -26,8 +34,19 @@ namespace Sop.StoreRepoCommit
 open Sop.StoreRepo
 
 inductive Phase
-  | idle | live | retry | committed | failed
+  | idle | live | retry | committed | failed | crashed | recovered
 deriving DecidableEq, Repr, Inhabited
+
+/-- an injected fault of one backend call: no effect and an error / performed and an error -/
+inductive Fault
+  | none | before | after
+deriving DecidableEq, Repr, Inhabited
+
+structure Variant where
+  /-- the partial rollback keeps the created stores (but rewinds the log state) -/
+  forget : Bool := false
+  /-- `NewBtree` calls `StoreRepository.Add` before it writes the `createStore` record -/
+  addFirst : Bool := false
 
 structure State where
   disk : List Store := []
@@ -37,6 +56,14 @@ structure State where
   /-- `logger.committedState ≠ unknown` -/
   logged : Bool := false
   next : Nat := 1
+  /-- the durable `createStore` records of `T` in the transaction log (store names) -/
+  tlog : List String := []
+  /-- `NewBtree(n)` has written its `createStore` record and has not called `Add` yet -/
+  pendingLog : Option (String × Opts) := none
+  /-- (`addFirst` only) `NewBtree(n)` has added the store (root id) and has not written the record yet -/
+  pendingAdd : Option (String × Nat) := none
+  /-- ghost: every name `T`'s `StoreRepository.Add` was performed for -/
+  everAdded : List String := []
 
 inductive Op
   | begin
@@ -50,6 +77,14 @@ inductive Op
   was attempted (`logger.log` sets `committedState` before it writes) -/
   | finish (ok : Bool) (relogged : Bool)
   | rollback
+  /-- `NewBtree(n, o)` of an absent name, first call: the `createStore` log record, with fault `f` -/
+  | newLog (n : String) (o : Opts) (f : Fault)
+  /-- `NewBtree(n, o)`: `StoreRepository.Add`, with fault `f` -/
+  | newAdd (n : String) (o : Opts) (f : Fault)
+  /-- the process of `T` dies -/
+  | crash
+  /-- another process runs the expired-log recovery on `T`'s records -/
+  | recover
   /-- another transaction adds an item to the existing store `n` and commits -/
   | otherAdd (n : String) (k : Int) (v : String)
   | otherNew (n : String) (o : Opts)
@@ -62,20 +97,36 @@ def created (s : State) : List String := createdNames s.opened
 def removeCreated (s : State) : List Store := if s.logged then eraseAll s.disk (created s) else s.disk
 
 def partialRollback (forget : Bool) (s : State) : State :=
-  { s with disk := if forget then s.disk else removeCreated s, logged := false, phase := .retry }
+  { s with disk := if forget then s.disk else removeCreated s, logged := false, phase := .retry, tlog := [] }
 
+/-- the live rollback; it ends with `removeLogs` -/
 def finalRollback (s : State) : State :=
-  { s with disk := removeCreated s, logged := false, phase := .failed }
+  { s with disk := removeCreated s, logged := false, phase := .failed, tlog := [], pendingLog := none, pendingAdd := none }
+
+/-- the store `NewBtree(n, o)` adds -/
+def newStore (s : State) (n : String) (o : Opts) : Store := { name := n, root := s.next, opts := o.norm, count := 0, items := [] }
+
+/-- the B-tree is registered in `btreesBackend` -/
+def register (s : State) (n : String) (r : Nat) : State :=
+  { s with opened := s.opened ++ [{ name := n, root := r, created := true, adds := [] }] }
+
+/-- `NewBtree`'s error path of `Add`: look the name up, remove it when there is none or it carries this root id; then
+`Rollback` -/
+def addFailed (s : State) (n : String) (r : Nat) : State :=
+  let d := match lookup s.disk n with
+    | some st => if st.root = r then erase s.disk n else s.disk
+    | none => s.disk
+  finalRollback { s with disk := d }
 
 def attached (s : State) (n : String) : Bool := s.opened.any (fun x => decide (x.name = n))
 
 def commitOk (s : State) : State :=
-  { s with disk := applyCounts (s.opened.foldl applyItems s.disk) s.opened, phase := .committed }
+  { s with disk := applyCounts (s.opened.foldl applyItems s.disk) s.opened, phase := .committed, tlog := [] }
 
-def step (forget : Bool) (s : State) : Op → State × String
+def step (v : Variant) (s : State) : Op → State × String
   | .begin => if s.phase = .idle then ({ s with phase := .live }, "ok") else (s, "bad-op")
   | .new n o =>
-    if s.phase ≠ .live then (s, "bad-op") else
+    if s.phase ≠ .live ∨ s.pendingLog.isSome ∨ s.pendingAdd.isSome then (s, "bad-op") else
     match lookup s.disk n with
     | some st =>
       if o.norm = st.opts then
@@ -85,23 +136,69 @@ def step (forget : Bool) (s : State) : Op → State × String
     | none =>
       -- log createStore, then StoreRepository.Add
       let st : Store := { name := n, root := s.next, opts := o.norm, count := 0, items := [] }
-      ({ s with disk := s.disk ++ [st], next := s.next + 1, logged := true,
+      ({ s with disk := s.disk ++ [st], next := s.next + 1, logged := true, tlog := s.tlog ++ [n], everAdded := s.everAdded ++ [n],
                 opened := s.opened ++ [{ name := n, root := s.next, created := true, adds := [] }] }, "created")
-  | .open_ n =>
+  | .newLog n o f =>
     if s.phase ≠ .live then (s, "bad-op") else
+    if v.addFirst then
+      -- second call of the swapped order: the store is there, the B-tree is not registered yet
+      match s.pendingAdd with
+      | some (n', r) =>
+        if n' ≠ n then (s, "bad-op") else
+        match f with
+        | .none => (register { s with logged := true, tlog := s.tlog ++ [n], pendingAdd := none } n r, "created")
+        | .before => (finalRollback { s with logged := true }, "err")
+        | .after => (finalRollback { s with logged := true, tlog := s.tlog ++ [n] }, "err")
+      | none => (s, "bad-op")
+    else
+      if s.pendingLog.isSome ∨ has s.disk n then (s, "bad-op") else
+      match f with
+      | .none => ({ s with logged := true, tlog := s.tlog ++ [n], pendingLog := some (n, o) }, "ok")
+      | .before => (finalRollback { s with logged := true }, "err")
+      | .after => (finalRollback { s with logged := true, tlog := s.tlog ++ [n] }, "err")
+  | .newAdd n o f =>
+    if s.phase ≠ .live then (s, "bad-op") else
+    if v.addFirst then
+      if s.pendingAdd.isSome ∨ has s.disk n then (s, "bad-op") else
+      match f with
+      | .none => ({ s with disk := s.disk ++ [newStore s n o], next := s.next + 1, everAdded := s.everAdded ++ [n],
+                           pendingAdd := some (n, s.next) }, "ok")
+      | .before => (addFailed s n s.next, "err")
+      | .after => (addFailed { s with disk := s.disk ++ [newStore s n o], next := s.next + 1, everAdded := s.everAdded ++ [n] } n s.next, "err")
+    else
+      match s.pendingLog with
+      | some (n', _) =>
+        if n' ≠ n ∨ has s.disk n then (s, "bad-op") else
+        match f with
+        | .none => (register { s with disk := s.disk ++ [newStore s n o], next := s.next + 1, everAdded := s.everAdded ++ [n],
+                                      pendingLog := none } n s.next, "created")
+        | .before => (addFailed s n s.next, "err")
+        | .after => (addFailed { s with disk := s.disk ++ [newStore s n o], next := s.next + 1, everAdded := s.everAdded ++ [n] } n s.next, "err")
+      | none => (s, "bad-op")
+  | .crash =>
+    if s.phase = .live ∨ s.phase = .retry then
+      -- memory is gone; the disk and the transaction log stay
+      ({ s with phase := .crashed, opened := [], logged := false, pendingLog := none, pendingAdd := none }, "ok")
+    else (s, "bad-op")
+  | .recover =>
+    if s.phase = .crashed then
+      ({ s with disk := eraseAll s.disk s.tlog, tlog := [], phase := .recovered }, "ok")
+    else (s, "bad-op")
+  | .open_ n =>
+    if s.phase ≠ .live ∨ s.pendingLog.isSome ∨ s.pendingAdd.isSome then (s, "bad-op") else
     if attached s n then (s, "opened") else
     match lookup s.disk n with
     | some st => ({ s with opened := s.opened ++ [{ name := n, root := st.root, created := false, adds := [] }] }, "opened")
     | none => (finalRollback s, "err:missing")
   | .add n k v =>
-    if s.phase = .live ∧ attached s n then ({ s with opened := addLast s.opened n (k, v) }, "ok") else (s, "bad-op")
+    if s.phase = .live ∧ attached s n ∧ s.pendingLog.isNone ∧ s.pendingAdd.isNone then ({ s with opened := addLast s.opened n (k, v) }, "ok") else (s, "bad-op")
   | .conflict =>
-    if s.phase = .live ∨ s.phase = .retry then
+    if (s.phase = .live ∨ s.phase = .retry) ∧ s.pendingLog.isNone ∧ s.pendingAdd.isNone then
       -- the round logged lockTrackedItems before it got as far as a conflict
-      (partialRollback forget { s with logged := true }, "retry")
+      (partialRollback v.forget { s with logged := true }, "retry")
     else (s, "bad-op")
   | .finish ok relogged =>
-    if s.phase = .live ∨ s.phase = .retry then
+    if (s.phase = .live ∨ s.phase = .retry) ∧ s.pendingLog.isNone ∧ s.pendingAdd.isNone then
       if s.phase = .retry ∧ (created s).any (fun n => !has s.disk n) then
         -- refetchAndMergeModifications: "store … not found", before any log record of the round
         (finalRollback s, if ok then "err:store-gone" else "err")
@@ -109,7 +206,7 @@ def step (forget : Bool) (s : State) : Op → State × String
       else (finalRollback { s with logged := s.logged || relogged }, "err")
     else (s, "bad-op")
   | .rollback =>
-    if s.phase = .live then (finalRollback s, "ok") else (s, "bad-op")
+    if s.phase = .live ∧ s.pendingLog.isNone ∧ s.pendingAdd.isNone then (finalRollback s, "ok") else (s, "bad-op")
   | .otherAdd n k v =>
     ({ s with disk := s.disk.map fun st =>
         if st.name = n then { st with count := st.count + 1, items := insertSorted (k, v) st.items } else st }, "ok")
@@ -118,9 +215,9 @@ def step (forget : Bool) (s : State) : Op → State × String
     else ({ s with disk := s.disk ++ [{ name := n, root := s.next, opts := o.norm, count := 0, items := [] }], next := s.next + 1 }, "ok")
   | .otherRemove n => ({ s with disk := erase s.disk n }, "ok")
 
-def run (forget : Bool) (s : State) : List Op → State
+def run (v : Variant) (s : State) : List Op → State
   | [] => s
-  | op :: ops => run forget (step forget s op).1 ops
+  | op :: ops => run v (step v s op).1 ops
 
 /-- the cold view of the catalogue: every listed store with its options and count (the created stores' items are
 compared by the harness's oracle; item updates of existing stores are not catalogue matter) -/
